@@ -564,8 +564,9 @@ C02_CalledIffOk ==
   /\ \A f \in Ctors  : f \in called  <=> okn[f] > 0
   /\ \A d \in Decors : d \in dcalled <=> okn[d] > 0
 \* no execution after the successful one (action property)
-C02_NoExecAfterSuccess ==
-  [][\A f \in Fns : (Kind(f) # "inv" /\ okn[f] > 0) => execs'[f] = execs[f]]_vars
+C02_NoExecAfterSuccess_A ==
+  \A f \in Fns : (Kind(f) # "inv" /\ okn[f] > 0) => execs'[f] = execs[f]
+C02_NoExecAfterSuccess == [][C02_NoExecAfterSuccess_A]_vars
 \* every cached value stems from the unique successful execution of its producer
 C02_SameInstance ==
   /\ \A e \in vals \cup dvals : e.v.n = okn[e.v.f] /\ e.v.n > 0
@@ -577,9 +578,10 @@ C07_NoPartial ==
   HaveExec => \A j \in DOMAIN LastExec.args : \A x \in DOMAIN LastExec.args[j] :
      LET a == LastExec.args[j][x] IN a # Zero => a.n = okn[a.f] /\ a.n > 0
 \* a failed execution leaves the caches and markers alone (action property)
-C07_FailureLeavesNoTrace ==
-  [][(\E f \in Fns : execs'[f] = execs[f] + 1 /\ okn'[f] = okn[f] /\ Kind(f) # "inv")
-       => UNCHANGED <<vals, dvals, grps, dgrps, called, dcalled>>]_vars
+C07_FailureLeavesNoTrace_A ==
+  (\E f \in Fns : execs'[f] = execs[f] + 1 /\ okn'[f] = okn[f] /\ Kind(f) # "inv")
+       => UNCHANGED <<vals, dvals, grps, dgrps, called, dcalled>>
+C07_FailureLeavesNoTrace == [][C07_FailureLeavesNoTrace_A]_vars
 
 \* C10: a hard group parameter outside any group decorator holds exactly the members of
 \* every visible feeder, each feeder having run exactly once
@@ -605,9 +607,10 @@ GroupArgOK(ev, j) ==
 C10_Groups == HaveExec => \A j \in DOMAIN Ps(LastExec.f) : GroupArgOK(LastExec, j)
 
 \* C11: resolving a soft group never pushes a constructor frame (action property)
-C11_NoTrigger ==
-  [][(Building /\ TopP.m = "soft" /\ Len(stack') > Len(stack))
-        => Kind(stack'[Len(stack')].f) = "dec"]_vars
+C11_NoTrigger_A ==
+  (Building /\ TopP.m = "soft" /\ Len(stack') > Len(stack))
+        => Kind(stack'[Len(stack')].f) = "dec"
+C11_NoTrigger == [][C11_NoTrigger_A]_vars
 
 \* C12: one decorator per key and scope
 C12_OnePerScopeKey == \A d1, d2 \in decs :
@@ -650,7 +653,9 @@ C03_OnlyClosure == HaveExec => LastExec.f \in Closure(cur.f, cur.s)
 C03_DepsFirst == HaveExec => \A j \in DOMAIN LastExec.args : \A x \in DOMAIN LastExec.args[j] :
      LET a == LastExec.args[j][x] IN a # Zero => okn[a.f] = a.n /\ a.f # LastExec.f
 \* C03: registrations execute nothing (action property)
-C03_RegistrationsSilent == [][(~cur.active /\ ~cur'.active) => execs' = execs]_vars
+C03_RegistrationsSilent_A ==
+  (~cur.active /\ ~cur'.active) => execs' = execs
+C03_RegistrationsSilent == [][C03_RegistrationsSilent_A]_vars
 
 \* C04: without faults, an Invoke that passed its own shallow check fails with "missing"
 \* only if some constructor in its closure lacks a required dependency
@@ -679,9 +684,10 @@ C20_OneToOne ==
                         /\ (ex[x].o = "ok" <=> cb[x].e = "nil")
 
 \* C06: a rejected registration changes nothing (action property)
-C06_NoTrace ==
-  [][(~cur'.active /\ cur'.op \in {"provide", "decorate"} /\ ret'.v # "ok" /\ ~cur.active)
-       => UNCHANGED <<reg, decs, vals, dvals, grps, dgrps, called, dcalled, execs, okn, created>>]_vars
+C06_NoTrace_A ==
+  (~cur'.active /\ cur'.op \in {"provide", "decorate"} /\ ret'.v # "ok" /\ ~cur.active)
+       => UNCHANGED <<reg, decs, vals, dvals, grps, dgrps, called, dcalled, execs, okn, created>>
+C06_NoTrace == [][C06_NoTrace_A]_vars
 
 \* consistency of caches with markers
 CacheConsistent ==
